@@ -82,8 +82,13 @@ Definition cache_tag (F : facts) (site : string) : string :=
 Definition cache_contexts_distinct (F : facts) : bool :=
   negb (String.eqb (cache_tag F "check_with_bulk_schema") (cache_tag F "validate_logical")).
 
+(* F3: the only handler that may stop a field's remaining rules is `dependencies`, on the look-up the model transcribes
+   (document error tree, schema path + (field, 'dependencies')) *)
+Definition stop_eqb (a b : string * string) : bool := String.eqb (fst a) (fst b) && String.eqb (snd a) (snd b).
+Definition ok_stops (F : facts) : bool := list_eqb stop_eqb (f_stops F) (f_stops documented).
+
 Definition ok_validation (F : facts) : bool :=
-  ok_errors F && ok_queue F && ok_types F && ok_of F && ok_sites F.
+  ok_errors F && ok_queue F && ok_types F && ok_of F && ok_sites F && ok_stops F.
 
 Definition facts_ok (F : facts) : bool :=
   ok_validation F && ok_messages F && ok_pipeline F && ok_resets F.
